@@ -1,4 +1,5 @@
 import Netconan.Model.Words
+import Netconan.Proofs.RegexFrame
 /-!
 # C10 – Listed sensitive words never survive; reserved words always do  (tier T0)
 
@@ -57,6 +58,22 @@ theorem token_structure_kept (e : WEnv) (t : T) (line out : List Char) (h : anon
         exact ⟨ws, mapRes_length _ _ _ hm, by rw [← h, List.append_assoc]⟩
       | oof => simp [hm] at h
       | none => simp [hm] at h
+
+/-- **Inside a token only matched spans change, each into the pseudonym of exactly the text it matched**
+(so the replacement is determined by the salt and the matched text, and text around a match – also
+inside a longer string – is carried over). -/
+theorem token_only_matched_spans_change (e : WEnv) (t : T) (w out : List Char) (h : anonToken e t w = .ok out) :
+    out = w ∨ ∃ segs : List Seg, w = (segs.map Seg.src).flatten ∧ out = (segs.map Seg.dst).flatten ∧
+      ∀ sg ∈ segs, ∀ s rp, sg = .rep s rp → rp = replacement t.salt s := by
+  unfold anonToken at h
+  split at h
+  · left; simp at h; exact h.symm
+  · right
+    obtain ⟨segs, h1, h2, h3⟩ := sub_frame t.re _ w out h
+    refine ⟨segs, h1, h2, ?_⟩
+    intro sg hsg s rp hst
+    obtain ⟨z0, z1, cs, _, _, hrp⟩ := h3 sg hsg s rp hst
+    exact hrp
 
 /-- hexadecimal digit characters -/
 def isHexDigit (c : Char) : Bool := ('0' ≤ c && c ≤ '9') || ('a' ≤ c && c ≤ 'f')
